@@ -2,5 +2,21 @@
 TEXTFLAGS = ("Gen/TextFlags", "TextFlags")
 TEXTFLAGH = ("Oracle/TextFlagH", "TextFlagH")
 REGS = ("Gen/Regs", "Regs")
+REGHW = ("Oracle/RegHW", "RegHW")   # C20: measured (go tool asm + decoders + execution on the host CPU)
 
-ALL_MODULES = [TEXTFLAGS, TEXTFLAGH, REGS]
+# C06 / C08: x86/zoptab.go (16 shards + meta + appender), zctors.go + zinstructions.go (8 shards + appender), zmov.go
+FORM_SHARDS = 16
+CTOR_SHARDS = 8
+FORMSMETA = ("Gen/FormsMeta", "FormsMeta")
+def forms_modules():
+    """FormsMeta, the 16 row shards and the small module that appends them."""
+    return [FORMSMETA] + [(f"Gen/Forms_{i:02d}", f"Forms_{i:02d}") for i in range(FORM_SHARDS)] + [("Gen/Forms", "Forms")]
+def ctors_modules():
+    return [(f"Gen/Ctors_{i:02d}", f"Ctors_{i:02d}") for i in range(CTOR_SHARDS)] + [("Gen/Ctors", "Ctors")]
+MOV = ("Gen/Mov", "Mov")
+# C14: tag characters / white space of the installed toolchain
+TAGCHARS = ("Oracle/TagChars", "TagChars")
+# C13: constant types of operand/zconst.go + const.go (format verbs, Bytes)
+CONSTS = ("Gen/Consts", "Consts")
+
+ALL_MODULES = [TEXTFLAGS, TEXTFLAGH, REGS, REGHW] + forms_modules() + ctors_modules() + [MOV, TAGCHARS, CONSTS]
